@@ -32,7 +32,8 @@ theorem iterCount_inc (c : Cfg) (k : Comp) (hc : c.iterContiguous k = false) (hf
 
 /-- **simulation**: the first pass over `s` from inside the region `[a, e)` and the re-scan of the stored region
 `R = s[a..e)` from the corresponding position take the same decisions -/
-theorem rescan_sim (c : Cfg) (k : Comp) (p : Pred) (hk : c.skip k = .pred p) (hp : p ≠ .itc) (hd : c.debug = false)
+theorem rescan_sim (c : Cfg) (k : Comp) (p : Pred) (hk : c.skip k = .pred p) (hp : p ≠ .itc ∨ Fix.itc = true)
+    (hd : c.debug = false)
     (hc : c.iterContiguous k = false) (hf : c.feats.format = true) (hks : k ≠ .special)
     (hsep : ∀ x, c.isSep x = true → charToDigit x c.mantissaRadix = none)
     (s : List Nat) (a e : Nat) (he : e ≤ s.length)
@@ -268,7 +269,8 @@ theorem contig_of_pred (c : Cfg) (k : Comp) (p : Pred) (hk : c.skip k = .pred p)
   · rw [skip_of_contig c k hc] at hk; cases hk
 
 /-- **re-scan consistency for every separator predicate except I+T+C** -/
-theorem rescan_pred (c : Cfg) (k : Comp) (p : Pred) (hk : c.skip k = .pred p) (hp : p ≠ .itc) (hd : c.debug = false)
+theorem rescan_pred (c : Cfg) (k : Comp) (p : Pred) (hk : c.skip k = .pred p) (hp : p ≠ .itc ∨ Fix.itc = true)
+    (hd : c.debug = false)
     (hreach : ∀ k, c.skip k ≠ .unreachable) (hf : c.feats.format = true) (hks : k ≠ .special)
     (hsep : ∀ x, c.isSep x = true → charToDigit x c.mantissaRadix = none) : Rescan c k := by
   intro hc b e ds hR h0 hv hprev hnext
